@@ -125,7 +125,20 @@ def neutral_programs():
     def p7(Qc):
         t = P.Table("t")
         return Qc.from_(t).delete().where(~(t.a == 1) | (t.b != 2))
-    return [p1, p2, p3, p4, p5, p6, p7]
+    def p8(Qc):
+        # window functions: PARTITION BY, ORDER BY entries with and without a direction, a frame; constants inside
+        from pypika_tortoise import analytics as an
+        t = P.Table("t")
+        return Qc.from_(t).select(an.Rank().over(t.a).orderby(t.b + 7, order=P.enums.Order.desc).orderby(t.c),
+                                  an.Sum(t.d).over(t.a, t.e).orderby(t.f, order=P.enums.Order.asc).rows(an.Preceding(1)),
+                                  an.RowNumber().orderby(t.g)).where(t.h == "w")
+
+    def p9(Qc):
+        # functions with their own argument syntax
+        t = P.Table("t")
+        return Qc.from_(t).select(fn.Cast(t.a, P.enums.SqlTypes.INTEGER), fn.Extract(P.enums.DatePart.year, t.b), fn.Coalesce(t.c, "d", 0),
+                                  fn.Concat(t.e, "-", t.f).as_("cc"), fn.Count("*")).where(fn.Lower(t.g) == "x").groupby(t.a).having(fn.Max(t.h) > 3)
+    return [p1, p2, p3, p4, p5, p6, p7, p8, p9]
 
 
 def cases(run, rng):
@@ -207,7 +220,7 @@ def check(run: core.Run):
         rule="(A) for each of 6 outer classes x 9 nesting constructs (sub-query in FROM / JOIN / IN / select list, CTE body, set operand, set operation in FROM, INSERT..SELECT, a "
              "generic criterion) x 7 dialect-sensitive leaves (identifier, string with backslash, array, interval, JSON, boolean criterion, number) x depth 1-2 (thorough 3) x {inline, "
              "parameterised}: the statement whose nested parts are built with the generic classes must render exactly (text and value list) as the one whose nested parts are built with the "
-             "outer class. (B) 7 dialect-neutral programs (join/group/having/order, nested sub-query, three-way set operation, CTE, INSERT, UPDATE with CASE and IN sub-query, DELETE) under "
+             "outer class. (B) 9 dialect-neutral programs (window functions, functions with their own argument syntax, join/group/having/order, nested sub-query, three-way set operation, CTE, INSERT, UPDATE with CASE and IN sub-query, DELETE) under "
              "all 30 ordered pairs of classes x 2 modes: Ref.Dialect.cross_ok in Coq (token streams equal after normalising quote character, placeholder style, set-operand wrapping).",
         assumptions=["the wrapper class a builder installs for constants in select / SET (SQLite: 1/0 for booleans; MySQL) is chosen when the part is BUILT: inner parts built by the generic "
                      "class use the plain wrapper - the (A) leaves avoid bare booleans in the select list (known finding C08-wrapper-by-builder-class)"])
